@@ -169,13 +169,18 @@ impl ClientVisibility {
                     // 'WhitelistInfo::Visible' in `Self::update`.
                     // This allows us to avoid accessing the whitelist's `added` field in
                     // `Self::visibility_state`.
+                    // If the entity was removed in this tick, then undo it.
+                    if self.removed.remove(&entity) {
+                        list.insert(entity, WhitelistInfo::Visible);
+                        return;
+                    }
+
                     if *list.entry(entity).or_insert(WhitelistInfo::JustAdded)
                         == WhitelistInfo::JustAdded
                     {
                         // Do not mark an entry as newly added if the entry was already in the list.
                         self.added.insert(entity);
                     }
-                    self.removed.remove(&entity);
                 } else {
                     // If the entity is not in the whitelist, do nothing.
                     if list.remove(&entity).is_none() {
